@@ -345,13 +345,57 @@ def outcome_counts(conc, files):
     return dict(upgraded=up, refused=ref)
 
 
+def port_class(port, scheme):
+    """Class of an explicit port relative to the origin's scheme: none / default (of that scheme) / otherdefault / other."""
+    if not port:
+        return "none"
+    dflt = {"http": "80", "ws": "80", "https": "443", "wss": "443"}
+    if dflt.get(scheme) == port:
+        return "default"
+    return "otherdefault" if port in ("80", "443") else "other"
+
+
+def port_cells(conc):
+    """(Host port class, Origin port class) cells hit by requests whose origin has an authority with the same host name."""
+    from collections import Counter
+    cells = Counter()
+    for c in conc:
+        r = c["p"]["req"]
+        o = r["origin"]
+        if not o["present"] or o["shape"] not in ("plain", "userinfo", "path") or c["p"]["cfg"]["checkOrigin"] != "nil":
+            continue
+        host = text(r["host"])
+        hname, _, hport = host.rpartition(":") if (":" in host and not host.endswith("]")) else (host, "", "")
+        if hname.lower() != text(o["y"]).lower():
+            continue
+        sch = text(o["scheme"])
+        cells["host=%s,origin=%s" % (port_class(hport, sch), port_class(text(o["port"]), sch))] += 1
+    return cells
+
+
+PORT_CELLS = ["host=%s,origin=%s" % (a, b) for a in ("none", "default", "otherdefault", "other")
+              for b in ("none", "default", "otherdefault", "other")]
+
+
+def c13_floors(conc, files):
+    cov = outcome_counts(conc, files)
+    cells = port_cells(conc)
+    missing = [k for k in PORT_CELLS if cells[k] == 0]
+    if missing:
+        raise core.Infra("coverage floor missed: no same-host request in port cells %s" % missing)
+    cov["port_cells_same_host"] = dict(cells)
+    return cov
+
+
 def c13(tier):
     sfx = "quick" if tier == "quick" else "thorough"
     parts = [dict(mc=("MC_C13.tla", "MC_C13_%s.cfg" % sfx), conc=lambda progs, seed: conc_c13(progs, tier, seed))]
-    rc, _ = run_check("C13", tier, parts, floors=outcome_counts,
+    rc, _ = run_check("C13", tier, parts, floors=c13_floors,
                       rule="abstract programs = initial states of MC_C13: (Host, Origin) pairs over the adversarial alphabet "
                            "(edit distance <= 1, Unicode-fold variants, all short pairs) x origin shapes x ports x embeddings, "
-                           "IP literals; each is embedded into an otherwise valid handshake for an Upgrader without CheckOrigin "
+                           "IP literals; structured ports: Host port {none, :80, :443, :81} x Origin port {none, 80, 443, 81, 82} x Origin "
+                           "scheme {http, https, ws, wss} (port absent / default of the scheme / default of the other scheme / other, on "
+                           "either side: every cell hit, floor); each is embedded into an otherwise valid handshake for an Upgrader without CheckOrigin "
                            "and executed once (non-trivial: a complete Upgrade call); distinct by abstract program")
     return rc
 
